@@ -862,9 +862,17 @@ def gen_nm(rng, tier):
     return case
 
 
+# candidate identifiers contained in one another, falsy, numeric-looking (round 9: `in` on a string, `x or default`)
+CAND_FAMILIES = [["Anna", "Ann", "An", "n"], ["10", "1", "0", "101"], ["Bo", "Bob", "o", "B"], ["0", "", " 0", "00"]]
+
+
+def _cand_names(rng):
+    return list(rng.choice(CAND_FAMILIES)) if rng.chance(0.15) else ["A", "B", "C", "D"]
+
+
 def gen_tally(rng, N, stream):
     """(tally list, winner, loser): counts for 2-4 candidates within N cards"""
-    cands = ["A", "B", "C", "D"][: rng.choice([2, 3, 3, 4])]
+    cands = _cand_names(rng)[: rng.choice([2, 3, 3, 4])]
     while True:
         cut = sorted(rng.randint(0, N) for _ in range(len(cands)))
         counts = [cut[0]] + [cut[i] - cut[i - 1] for i in range(1, len(cands))]
@@ -884,7 +892,7 @@ def gen_tally(rng, N, stream):
             break
     if stream == "tie":
         counts[1] = counts[0]
-    return [[c, int(v)] for c, v in zip(cands, counts)], "A", "B"
+    return [[c, int(v)] for c, v in zip(cands, counts)], cands[0], cands[1]
 
 
 def gen_find(rng, tier):
@@ -977,7 +985,7 @@ def gen_multi(rng, tier, op):
     N = rng.choice([6, 10, 16, 25, 40, 60])
     at = rng.choice(["POLLING", "POLLING", "CARD_COMPARISON", "CARD_COMPARISON", "ONEAUDIT"] if op == "contest"
                     else ["POLLING", "POLLING", "CARD_COMPARISON"])
-    cands = ["A", "B", "C", "D"][: rng.choice([2, 3, 3, 4])]
+    cands = _cand_names(rng)[: rng.choice([2, 3, 3, 4])]
     cut = sorted(rng.randint(0, N) for _ in range(len(cands)))
     counts = sorted([cut[0]] + [cut[i] - cut[i - 1] for i in range(1, len(cands))], reverse=True)
     if len(cands) > 1 and counts[0] == counts[1] and rng.chance(0.8):
